@@ -1,3 +1,79 @@
-/- Line-protocol driver entry for C10 (XML side; the dict-document side may add its own ops). -/
-import Driver.XmlCodec
-def main : IO Unit := Driver.run XmlCodec.step
+/- Line-protocol driver for the C10 funnel model (SpyneModel/Hostile.lean) on the regenerated facts. -/
+import Driver.Util
+import SpyneModel.Hostile
+import SpyneModel.Generated.Facts10
+open Lean SpyneModel.Hostile Driver
+
+def F10 := SpyneModel.Generated.facts10
+
+def getObj (j : Json) (k : String) : Json :=
+  match j.getObjVal? k with | .ok v => v | .error _ => Json.null
+
+def strList (j : Json) (k : String) : List String :=
+  (getArr j k).toList.map (fun c => match c.getStr? with | .ok s => s | .error _ => "")
+
+def getExc (j : Json) : Exc := ⟨getStr j "name", strList j "mro"⟩
+
+def protoOf : String → Proto
+  | "xml" => .xml | "soap11" => .soap11 | "soap12" => .soap12 | "json" => .json | "yaml" => .yaml
+  | "msgpack" => .msgpack | "msgpackRpc" => .msgpackRpc | _ => .httpRpc
+
+def parseOf (j : Json) (k : String) : ParseResult :=
+  match j.getObjVal? k with
+  | .ok (.str _) => .doc
+  | .ok v =>
+    (match v.getObjVal? "decodeExc" with
+     | .ok e => .decodeExc (getExc e)
+     | .error _ =>
+       match v.getObjVal? "parseExc" with
+       | .ok e => .parseExc (getExc e)
+       | .error _ => .doc)
+  | .error _ => .doc
+
+def codecOfJson (j : Json) (k : String) : Codec :=
+  match j.getObjVal? k with
+  | .ok (.str _) => .ok
+  | .ok v =>
+    (match v.getObjVal? "fault" with
+     | .ok (.str c) => .fault c
+     | _ =>
+       match v.getObjVal? "crash" with
+       | .ok e => .crash (getExc e)
+       | .error _ => .ok)
+  | .error _ => .ok
+
+def famOf : String → PFam | "soap" => .soap | "http" => .http | _ => .plain
+def methodOf : String → PMethod | "post" => .post | "get" => .get | _ => .other
+def ctypeOf : String → PCtype
+  | "absent" => .absent | "proper" => .proper | "garbage" => .garbage | "multipartNoBoundary" => .multipartNoBoundary
+  | _ => .otherType
+def lenOf : String → PLen
+  | "absent" => .absent | "empty" => .empty | "exact" => .exact | "short" => .short | "long" => .long
+  | "overMax" => .overMax | "negative" => .negative | "nonNumeric" => .nonNumeric | "float" => .float | "huge" => .huge
+  | "padded" => .padded | _ => .plus
+
+def keyOf (j : Json) : PreKey :=
+  match (getArr j "key").toList.map (fun c => match c.getStr? with | .ok s => s | .error _ => "") with
+  | [f, m, c, l] => ⟨famOf f, methodOf m, ctypeOf c, lenOf l⟩
+  | _ => ⟨.plain, .post, .proper, .exact⟩
+
+def famName (c : String) : String := if isClient c then "client" else "server"
+
+def step (j : Json) : Json :=
+  match getStr j "op" with
+  | "funnel" =>
+    let q : Req := { proto := protoOf (getStr j "proto"), parse := parseOf j "parse", reparse := parseOf j "reparse",
+                     dispatch := codecOfJson j "dispatch", deser := codecOfJson j "deser" }
+    if getStr j "transport" == "wsgi" then
+      match runWsgi F10 (keyOf j) q with
+      | .ok s n => Json.mkObj [("resp", "ok"), ("called", Json.num (n : Nat)), ("status", Json.num ((s / 100 : Nat) : Nat))]
+      | .fault c s n => Json.mkObj [("resp", Json.str (famName c)), ("called", Json.num (n : Nat)), ("status", Json.num ((s / 100 : Nat) : Nat))]
+      | .escape _ => Json.mkObj [("escape", true)]
+    else
+      match runBase F10 q with
+      | .ok n => Json.mkObj [("resp", "ok"), ("called", Json.num (n : Nat))]
+      | .fault c n => Json.mkObj [("resp", Json.str (famName c)), ("called", Json.num (n : Nat))]
+      | .escape _ => Json.mkObj [("escape", true)]
+  | op => Json.mkObj [("driver_error", Json.str s!"unknown op {op}")]
+
+def main : IO Unit := Driver.run step
